@@ -137,15 +137,24 @@ pub fn check(case: &Case, idx: u64, acc: &mut Acc) {
             let variant = idx as usize;
             let u = word_union(w, z0, variant);
             let (lo, hi) = (z0 - 45, z0 + wl + 45);
-            let bm = Bitmap::of(&u, lo, hi);
+            // the oracle's calendar is the WORD itself (not the real predicates): N non-business,
+            // B business but not settleable, S (and everything outside the window) settleable
+            let wb = w.as_bytes();
+            let bm = Bitmap::from_fn(lo, hi, |z| {
+                let off = z - z0;
+                if off >= 0 && off < wl {
+                    (wb[off as usize] != b'N', wb[off as usize] != b'B')
+                } else {
+                    (true, true)
+                }
+            });
             check_rolls(&u, &bm, z0 - 2, z0 + wl + 1, "UnionCal", case, idx, acc);
             let ct = CalType::UnionCal(u);
             check_rolls(&ct, &bm, z0 - 2, z0 + wl + 1, "CalType", case, idx, acc);
             if !has_b {
                 let (n, _) = word_days(w, z0);
                 let c = Cal::new(n.iter().map(|z| to_ndt(*z)).collect(), vec![]);
-                let bmc = Bitmap::of(&c, lo, hi);
-                check_rolls(&c, &bmc, z0 - 2, z0 + wl + 1, "Cal", case, idx, acc);
+                check_rolls(&c, &bm, z0 - 2, z0 + wl + 1, "Cal", case, idx, acc);
             }
             if idx % 50021 == 0 {
                 acc.sample(|| serde_json::to_value(case).unwrap());
@@ -173,15 +182,21 @@ pub fn check(case: &Case, idx: u64, acc: &mut Acc) {
                 let hols: Vec<_> = (0..7).filter(|i| hs & (1 << i) != 0).map(|i| to_ndt(z0 + i)).collect();
                 let c = Cal::new(hols, wm.clone());
                 let (lo, hi) = (z0 - 40, z0 + 47);
+                // model of the calendar from its definition (week masks and holidays), not from the real predicates
+                let model = |z: i64| {
+                    let wd = weekday(z) as u8;
+                    let off = z - z0;
+                    let hol = (0..7).contains(&off) && hs & (1 << off) != 0;
+                    (mask & (1 << wd) == 0 && !hol, smask.map_or(true, |sm| sm & (1 << wd) == 0))
+                };
+                let bm = Bitmap::from_fn(lo, hi, model);
                 match smask {
                     None => {
-                        let bm = Bitmap::of(&c, lo, hi);
                         check_rolls(&c, &bm, z0 - 2, z0 + 8, "Cal/mask", case, idx, acc);
                     }
                     Some(sm) => {
                         let swm: Vec<u8> = (0..7u8).filter(|i| sm & (1 << i) != 0).collect();
                         let u = UnionCal::new(vec![c], Some(vec![Cal::new(vec![], swm)]));
-                        let bm = Bitmap::of(&u, lo, hi);
                         check_rolls(&u, &bm, z0 - 2, z0 + 8, "UnionCal/mask", case, idx, acc);
                     }
                 }
@@ -239,12 +254,13 @@ pub fn run(ctx: &Ctx, replay_file: Option<String>) -> ! {
          anchors (leap Feb->Mar, common Feb->Mar, Dec->Jan); every date of the window +-2, 5 modifiers, both \
          settlement flags. (2) all 14 built-in calendars and 5 named unions over EVERY date 1970-2200. (3) all 127 \
          week masks x 5 settlement masks x every holiday subset of one week. Oracle: linear searches on a bitmap of \
-         the calendar's own is_bus_day / is_settlement: following = first eligible >= d, previous = last eligible \
+         the calendar's definition (the word / the week masks and holidays) - for the named calendars, of their own \
+         is_bus_day / is_settlement: following = first eligible >= d, previous = last eligible \
          <= d, modified = opposite search when (year, month) differs, actual = d; laws: eligible dates do not move, \
          rolling twice = once, result eligible. Non-trivial: rolls that moved the date.",
         json!({"window": ctx.tier.pick(8, 11), "cases": cs.len(), "named_date_range": "1970-01-01..2200-12-31"}),
     )
-    .assume("is_bus_day / is_settlement are taken as given here (checked by C06 / C07)")
+    .assume("for the built-in named calendars is_bus_day / is_settlement are taken as given (checked by C06 / C07); word and mask calendars use an independent model")
     .assume("holiday runs longer than the window (and rolls travelling >= 11 months, where month numbers could coincide) are outside the bound")
     .assume("chrono date arithmetic, cross-checked against the civil-date model on every day 1969-2201 at start-up");
     finish(ctx, acc, meta)
